@@ -1,7 +1,10 @@
 #!/usr/bin/env python3
 """Kani leaf engine (DESIGN 3.6): loop-free leaf functions: the policies (contract only assumed in the Verus file) and trim_cr (also proved by Verus; Kani gives the counterexample).
 A scratch copy of /repo is made outside /repo and /verif, the harness modules in /verif/kani/*.rs are appended to
-src/lib.rs of the copy, `cargo kani` runs, the copy is removed."""
+the source file named in TARGET (lib.rs, or the module whose private fields the harness needs), `cargo kani` runs, the copy is removed.
+Besides the complete policy harnesses and trim_cr there are two bounded stand-ins for the record accessors (fastq_acc.rs, fasta_acc.rs):
+popular rewrites of those functions (iterator chains, retain, extracted helpers) put them outside the verified subset, and then these
+harnesses still decide - with a counterexample that is an input file."""
 import hashlib, json, os, re, shutil, subprocess, tempfile, time
 
 VERIF = os.path.dirname(os.path.dirname(os.path.abspath(__file__)))
@@ -10,10 +13,11 @@ CACHE = os.path.join(VERIF, ".cache")
 
 # property -> list of (harness file, harness name, function, bound label)
 HARNESSES = {
-    "C01": [("trim_cr.rs", "trim_cr_contract", "lib::trim_cr", "bounded: slice length <= 8, arbitrary bytes; counterexample source only - the contract is proved for every slice by Verus")],
-    "C02": [("trim_cr.rs", "trim_cr_contract", "lib::trim_cr", "bounded: slice length <= 8, arbitrary bytes; counterexample source only - the contract is proved for every slice by Verus")],
-    "C12": [("trim_cr.rs", "trim_cr_contract", "lib::trim_cr", "bounded: slice length <= 8, arbitrary bytes; counterexample source only - the contract is proved for every slice by Verus")],
-    "C13": [("trim_cr.rs", "trim_cr_contract", "lib::trim_cr", "bounded: slice length <= 8, arbitrary bytes; counterexample source only - the contract is proved for every slice by Verus")],
+    "C01": [("trim_cr.rs", "trim_cr_contract", "lib::trim_cr", "bounded: slice length <= 8, arbitrary bytes; counterexample source only - the contract is proved for every slice by Verus"), ("fasta_acc.rs", "fasta_owned_seq_two_lines", "fasta::RefRecord::{head,owned_seq}", "bounded: one record with two sequence lines in an 8-byte buffer, every content and offset triple of the reader's layout; stand-in and counterexample source - the contract is proved for every buffer and any number of lines by Verus")],
+    "C02": [("trim_cr.rs", "trim_cr_contract", "lib::trim_cr", "bounded: slice length <= 8, arbitrary bytes; counterexample source only - the contract is proved for every slice by Verus"), ("fastq_acc.rs", "fastq_accessors_trim_one_cr", "fastq::BufferPosition::{head,seq,qual}", "bounded: one record in a 12-byte buffer, every content and offset tuple of the reader's layout; stand-in and counterexample source - the contract is proved for every buffer by Verus")],
+    "C04": [("fasta_acc.rs", "fasta_owned_seq_two_lines", "fasta::RefRecord::{head,owned_seq}", "bounded: one record with two sequence lines in an 8-byte buffer, every content and offset triple of the reader's layout; stand-in and counterexample source - the contract is proved for every buffer and any number of lines by Verus")],
+    "C12": [("trim_cr.rs", "trim_cr_contract", "lib::trim_cr", "bounded: slice length <= 8, arbitrary bytes; counterexample source only - the contract is proved for every slice by Verus"), ("fastq_acc.rs", "fastq_accessors_trim_one_cr", "fastq::BufferPosition::{head,seq,qual}", "bounded: one record in a 12-byte buffer, every content and offset tuple of the reader's layout; stand-in and counterexample source - the contract is proved for every buffer by Verus"), ("fasta_acc.rs", "fasta_owned_seq_two_lines", "fasta::RefRecord::{head,owned_seq}", "bounded: one record with two sequence lines in an 8-byte buffer, every content and offset triple of the reader's layout; stand-in and counterexample source - the contract is proved for every buffer and any number of lines by Verus")],
+    "C13": [("trim_cr.rs", "trim_cr_contract", "lib::trim_cr", "bounded: slice length <= 8, arbitrary bytes; counterexample source only - the contract is proved for every slice by Verus"), ("fastq_acc.rs", "fastq_accessors_trim_one_cr", "fastq::BufferPosition::{head,seq,qual}", "bounded: one record in a 12-byte buffer, every content and offset tuple of the reader's layout; stand-in and counterexample source - the contract is proved for every buffer by Verus"), ("fasta_acc.rs", "fasta_owned_seq_two_lines", "fasta::RefRecord::{head,owned_seq}", "bounded: one record with two sequence lines in an 8-byte buffer, every content and offset triple of the reader's layout; stand-in and counterexample source - the contract is proved for every buffer and any number of lines by Verus")],
     "C09": [("policy.rs", "std_policy_formula", "policy::StdPolicy::grow_to", "complete: loop-free, every current size <= isize::MAX/2"),
             ("policy.rs", "double_until_formula", "policy::DoubleUntil::grow_to", "complete: loop-free, every current size and threshold <= isize::MAX/2"),
             ("policy.rs", "double_until_limited_formula", "policy::DoubleUntilLimited::grow_to",
@@ -21,19 +25,31 @@ HARNESSES = {
 }
 
 
+# harness file -> source file of the scratch copy it is appended to (a child module sees the private fields of its parent)
+TARGET = {"trim_cr.rs": "src/lib.rs", "policy.rs": "src/lib.rs", "fastq_acc.rs": "src/fastq.rs", "fasta_acc.rs": "src/fasta.rs"}
+
+
 def run_for(prop, repo, tier):
     hs = HARNESSES.get(prop, [])
     if not hs:
         return dict(harnesses=[], failed=[])
-    files = sorted({h[0] for h in hs})
-    lib = open(os.path.join(repo, "src/lib.rs")).read() + open(os.path.join(repo, "src/policy.rs")).read()
-    key = hashlib.sha256((lib + "".join(open(os.path.join(KANI_DIR, f)).read() for f in files)).encode()).hexdigest()[:20]
+    # one cache entry per (sources of the tree, harness texts, harness name): the scratch crate always gets every harness file, so
+    # the build is the same whichever property asks
+    srcs = "".join(open(os.path.join(repo, "src", f)).read() for f in sorted(os.listdir(os.path.join(repo, "src"))) if f.endswith(".rs"))
+    htxt = "".join(open(os.path.join(KANI_DIR, f)).read() for f in sorted(TARGET))
+    base = hashlib.sha256((srcs + htxt).encode()).hexdigest()[:20]
     os.makedirs(CACHE, exist_ok=True)
-    cpath = os.path.join(CACHE, "kani_%s.json" % key)
-    if os.path.exists(cpath):
-        res = json.load(open(cpath))
-        res["cache_hit"] = True
-        return select(res, hs)
+    names = sorted({h[1] for h in hs})
+    results, missing, cached = {}, [], True
+    for nm in names:
+        cp = os.path.join(CACHE, "kani_%s_%s.json" % (base, nm))
+        if os.path.exists(cp):
+            results[nm] = json.load(open(cp))
+        else:
+            missing.append(nm)
+    kv = subprocess.run(["cargo", "kani", "--version"], stdout=subprocess.PIPE, text=True).stdout.strip()
+    if not missing:
+        return select(dict(results=results, wall_s=0.0, cache_hit=True, kani_version=kv), hs)
     tmp = tempfile.mkdtemp(prefix="seqio_kani_")
     t0 = time.time()
     try:
@@ -49,39 +65,34 @@ def run_for(prop, repo, tier):
         ct = open(os.path.join(tmp, "Cargo.toml")).read()
         ct = re.sub(r"\[\[bench\]\][^\[]*", "", ct)
         open(os.path.join(tmp, "Cargo.toml"), "w").write(ct)
-        with open(os.path.join(tmp, "src/lib.rs"), "a") as f:
-            for hf in files:
+        for hf, target in sorted(TARGET.items()):
+            with open(os.path.join(tmp, target), "a") as f:
                 f.write(open(os.path.join(KANI_DIR, hf)).read())
         env = dict(os.environ, CARGO_NET_OFFLINE="true")
-        out = {}
-        for hf in files:
-            pass
-        names = sorted({h[1] for h in HARNESSES_ALL() if h[0] in files})
-        results = {}
-        for name in names:
-            r = subprocess.run(["cargo", "kani", "--harness", name], cwd=tmp, env=env, stdout=subprocess.PIPE, stderr=subprocess.STDOUT, text=True, timeout=1800)
-            txt = r.stdout
+        for name in missing:
+            try:
+                # one run gives the verdict and, on failure, the concrete values of the failing execution
+                r = subprocess.run(["cargo", "kani", "--harness", name, "-Z", "concrete-playback", "--concrete-playback=print"], cwd=tmp, env=env,
+                                   stdout=subprocess.PIPE, stderr=subprocess.STDOUT, text=True, timeout=900)
+                txt, rcode = r.stdout, r.returncode
+            except subprocess.TimeoutExpired as te:
+                txt, rcode = "TIMEOUT after 900 s\n" + str(te.stdout or "")[-1500:], 124
             cex = None
             if "VERIFICATION:- FAILED" in txt:
-                # ask Kani for the concrete values of the failing execution
-                r2 = subprocess.run(["cargo", "kani", "--harness", name, "-Z", "concrete-playback", "--concrete-playback=print"], cwd=tmp, env=env,
-                                    stdout=subprocess.PIPE, stderr=subprocess.STDOUT, text=True, timeout=1800)
-                vals = [[int(x) for x in m.split(",") if x.strip()] for m in re.findall(r"^\s*vec!\[([0-9, ]*)\],\s*$", r2.stdout, re.M)]
+                vals = [[int(x) for x in m.split(",") if x.strip()] for m in re.findall(r"^\s*vec!\[([0-9, ]*)\],\s*$", txt, re.M)]
                 if vals:
                     cex = vals
             ok = "VERIFICATION:- SUCCESSFUL" in txt
             failed = "VERIFICATION:- FAILED" in txt
-            checks = re.findall(r"\*\* (\d+) of (\d+) failed", txt)
-            results[name] = dict(ok=ok, failed=failed, rc=r.returncode, tail=txt[-3000:],
+            results[name] = dict(ok=ok, failed=failed, rc=rcode, tail=txt[-3000:],
                                  failed_checks=re.findall(r"Failed Checks: (.*)", txt)[:10],
                                  time_s=None, counterexample=cex)
             m = re.search(r"Verification Time: ([0-9.]+)s", txt)
             if m:
                 results[name]["time_s"] = float(m.group(1))
-        res = dict(results=results, wall_s=round(time.time() - t0, 1), cache_hit=False,
-                   kani_version=subprocess.run(["cargo", "kani", "--version"], stdout=subprocess.PIPE, text=True).stdout.strip())
-        if all(r["ok"] or r["failed"] for r in results.values()):
-            json.dump(res, open(cpath, "w"))
+            if ok or failed:
+                json.dump(results[name], open(os.path.join(CACHE, "kani_%s_%s.json" % (base, name)), "w"))
+        res = dict(results=results, wall_s=round(time.time() - t0, 1), cache_hit=False, kani_version=kv)
         return select(res, hs)
     finally:
         shutil.rmtree(tmp, ignore_errors=True)
@@ -97,6 +108,14 @@ def decode_cex(name, vals):
         return dict(function="trim_cr", line=buf[:ln])
     def num(v):
         return int.from_bytes(bytes(v), "little")
+    if name == "fastq_accessors_trim_one_cr" and len(vals) >= 16:
+        buf = [v[0] for v in vals[:12]]
+        seq, sep, qual, p1 = (num(v) for v in vals[12:16])
+        return dict(function="fastq accessors", file=buf[:p1] + [10], offsets=dict(seq=seq, sep=sep, qual=qual, end=p1))
+    if name == "fasta_owned_seq_two_lines" and len(vals) >= 11:
+        buf = [v[0] for v in vals[:8]]
+        a, b, c = (num(v) for v in vals[8:11])
+        return dict(function="fasta owned_seq", file=buf[:c] + [10], offsets=dict(a=a, b=b, c=c))
     if name == "std_policy_formula" and len(vals) >= 1:
         return dict(function="StdPolicy::grow_to", current_size=num(vals[0]))
     if name == "double_until_formula" and len(vals) >= 2:
